@@ -115,6 +115,12 @@ fn add(cmd: &mut Command, a: &Value) -> Result<(), String> {
             let s = String::from_utf8(b).map_err(|_| "not utf8".to_string())?;
             cmd.add_argument(Cow::<str>::Borrowed(s.as_str()))
         }
+        // typed values of mpd_client that render themselves: a hand-built catch-all tag may hold anything
+        "tag" => cmd.add_argument(mpd_client::tag::Tag::Other(String::from_utf8(b).map_err(|_| "not utf8".to_string())?.into())),
+        "tagref" => {
+            let t = mpd_client::tag::Tag::Other(String::from_utf8(b).map_err(|_| "not utf8".to_string())?.into());
+            cmd.add_argument(&t)
+        }
         "u64" => cmd.add_argument(a["n"].as_u64().unwrap_or(0)),
         "u8" => cmd.add_argument(a["n"].as_u64().unwrap_or(0) as u8),
         "usize" => cmd.add_argument(a["n"].as_u64().unwrap_or(0) as usize),
